@@ -408,7 +408,11 @@ func crashSite(stderr string) string {
 		return "unknown-site"
 	}
 	site := m[1]
+	if i := strings.Index(site, "(0x"); i >= 0 {
+		site = site[:i] // drop the argument list
+	}
 	site = strings.NewReplacer("(", "", ")", "", "*", "").Replace(site)
+	site = regexp.MustCompile(`0x[0-9a-f]+.*$`).ReplaceAllString(site, "")
 	return site
 }
 
